@@ -32,7 +32,8 @@ def files(root):
 
 def unparse(root):
     for p in files(root):
-        open(p, 'w').write(ast.unparse(ast.parse(open(p).read())) + '\n')
+        src = open(p).read()        # read before the file is re-opened
+        open(p, 'w').write(ast.unparse(ast.parse(src)) + '\n')
 
 
 class _Locals(ast.NodeTransformer):
